@@ -3,7 +3,8 @@
    Serial walk: Model/Reducer.v (walk_serial), proofs in Proofs/CountsP.v.
    Parallel walk: Model/WalkPar.v — dispatcher, unbounded ready queue, done queue
    bounded by 2*par, readiness table, par worker processes, over the
-   multiprocessing.Queue model of VisitPar.v.  A schedule is an arbitrary list of
+   multiprocessing.Queue model of VisitPar.v (including Empty raised under reader-lock
+   contention, action KCTimeout).  A schedule is an arbitrary list of
    actions; actions that are not enabled are no-ops, so every theorem below holds
    for every interleaving of dispatcher, feeder flushes, worker receives, receive
    timeouts (only on an empty pipe), callbacks (one sync point between start and
@@ -167,6 +168,26 @@ Example walk_par_nothing_to_do :
   wf_pyr ex_sub_disjoint /\ spec_ops ex_sub_disjoint = [] /\
   option_map d_pc (winit ex_sub_disjoint 2 1) = Some DReturned.
 Proof. split; [repeat split; try reflexivity; cbn; auto; discriminate|]. split; vm_compute; reflexivity. Qed.
+
+(* the schedules quantified over above also contain [KCTimeout w]: ready_queue.get of worker w
+   raises Empty although the pipe holds items, because another worker sits inside get() and
+   may hold the queue's reader lock for the whole timeout (beyond the property's own quantifier,
+   "timeouts firing at any time the queue is empty").  Here worker 0 loses the race for the first
+   seed that way, goes through its flag test and takes the second seed *)
+Definition c01_contended_schedule : list wact :=
+  [DPut; DPut; FFlushReady; FFlushReady; KCTimeout 0; KRecv 1; KIsSet 0; KRecv 0; KCb 1; KCb 0; KPut 1; KPut 0;
+   FFlushDone 1; DRecv; FFlushDone 0; DRecv; DPut; KTimeout 1; FFlushReady; KIsSet 1; KRecv 1;
+   KCb 1; KPut 1; FFlushDone 1; DRecv; DPut; FFlushReady; KRecv 0; KCb 0; KPut 0; FFlushDone 0;
+   DRecv; DCloseQ; FFeederExit; DJoinThread; DSetFlag; KTimeout 1; KIsSet 1; KExit 1;
+   KTimeout 0; KIsSet 0; KExit 0; DJoinW 0; DJoinW 1].
+
+Example walk_par_contended_timeout :
+  exists s0, winit ex_full 2 2 = Some s0 /\
+    wenabled (wrun (fun _ => false) s0 (firstn 4 c01_contended_schedule)) (KCTimeout 0) = true /\
+    let s := wrun (fun _ => false) s0 c01_contended_schedule in
+    d_pc s = DReturned /\ length (cblog s) = 8 /\
+    wks s = [(KExited 0, true); (KExited 0, true)].
+Proof. eexists. split; [vm_compute; reflexivity|]. vm_compute. auto. Qed.
 
 (* the polling prefix of walk_par_no_deadlock is needed: a worker that timed out
    before the first item was flushed sits at its flag test; the only other enabled
